@@ -18,7 +18,7 @@ from fractions import Fraction
 import numpy as np
 
 PROP = 'C02'
-TARGETS = ['T8', 'T8b', 'T8c']
+TARGETS = ['T8', 'T8b', 'T8c', 'T8d', 'T8e']
 LEAN_MODULES = ['HdVerif.Props.C02']
 MODEL_MODULES = ['HdVerif.Model.SegRead', 'HdVerif.Model.SegMeta']
 NAMESPACE = 'HdVerif.C02'
@@ -331,6 +331,11 @@ def _requests(ctx, obj):
                 if entry == 'frame' and r.random() < 0.15:
                     planes.insert(r.randint(0, len(planes)), 'beyond')
                 rq['planes'] = planes
+            if entry == 'volume' and d['kind'] != 'tiled' and r.random() < 0.3:
+                R, C = d['rows'], d['cols']
+                r0 = r.randint(1, R)
+                c0 = r.randint(1, C)
+                rq['vrange'] = [r0, r.randint(r0 + 1, R + 1), c0, r.randint(c0 + 1, C + 1)]
             if entry == 'tpm' and r.random() < 0.5:
                 # a sub-region of the total pixel matrix (1-based, end exclusive)
                 R, C = d['rows'], d['cols']
@@ -473,6 +478,7 @@ def _run_read(ctx, obj, rq, frames, info):
     must_refuse_missing = False
     post = lambda a: a   # noqa: E731
     model_keys = None
+    crop = None
     if entry == 'instance':
         uids, plane_masks = [], []
         for p in rq['planes']:
@@ -565,14 +571,24 @@ def _run_read(ctx, obj, rq, frames, info):
             plane_of_slice = {v: k for k, v in slice_of_plane.items()}
             seq = [plane_of_slice[s] for s in range(lo, hi + 1)]
             plane_masks = [store[p] for p in seq]
-            call = lambda: seg.get_volume(**kw).array  # noqa: E731
-            model_keys = ('volume', seq)
+            if rq.get('vrange'):
+                r0, r1, c0, c1 = rq['vrange']
+                # get_volume combines whole planes and crops afterwards: refusals (overlap, non-binary fractional
+                # values) are decided on the whole planes, the values are the crop
+                crop = (slice(None), slice(r0 - 1, r1 - 1), slice(c0 - 1, c1 - 1))
+                call = lambda: seg.get_volume(row_start=r0, row_end=r1, column_start=c0, column_end=c1, **kw).array  # noqa: E731
+                model_keys = ('volume-cropped', seq)     # oracle only: the crop arithmetic is C03's
+            else:
+                call = lambda: seg.get_volume(**kw).array  # noqa: E731
+                model_keys = ('volume', seq)
     else:
         return None
     if d['kind'] == 'tiled' and entry == 'div':
         pass
     exp = _expected(obj, rq, plane_masks) if entry != 'div' or d['kind'] != 'tiled' else \
         _expected({'d': dict(d, rows=d['tile'][0], cols=d['tile'][1])}, rq, plane_masks)
+    if crop is not None and exp[0] == 'ok':
+        exp = ('ok', exp[1][crop], exp[2])
     st, val = _fetch(call)
     if st == 'ok':
         val = post(val)
@@ -580,7 +596,7 @@ def _run_read(ctx, obj, rq, frames, info):
             # which end of the stack comes first is a matter of geometry (C03): accept either direction
             if _compare(val, exp[1], exp[2], d, rq) is not None and _compare(val, exp[1][::-1], exp[2], d, rq) is None:
                 exp = ('ok', exp[1][::-1], exp[2])
-                model_keys = ('volume', model_keys[1][::-1])
+                model_keys = (model_keys[0], model_keys[1][::-1])
     case = {'obj': d, 'req': {k: v for k, v in rq.items()}}
     outcome = 'ok' if st == 'ok' else _err_kind(val)
     nontriv = None
@@ -593,7 +609,7 @@ def _run_read(ctx, obj, rq, frames, info):
              kind=d['kind'], via=d['via'], nseg=len(d['nums']), subset_size=len(rq['segs']),
              options=f"c{int(rq['combine'])}r{int(rq['relabel'])}s{int(rq['skip'])}f{int(rq['rescale'])}",
              dtype=str(rq['dtype']), outcome=outcome, expect=exp[0] if not must_refuse_missing else 'refuse-missing',
-             labels16=max(d['nums']) > 255, region=bool(rq.get('region')))
+             labels16=max(d['nums']) > 255, region=bool(rq.get('region') or rq.get('vrange')))
     site = f"{entry}/{d['type']}/{'combine' if rq['combine'] else 'stack'}"
     if must_refuse_missing:
         if st == 'ok':
@@ -950,7 +966,7 @@ def _object_cases(ctx, d, reqs, pending):
         if res is None:
             continue
         st, val, model_keys, rq2 = res
-        if model_keys is None:
+        if model_keys is None or (isinstance(model_keys, tuple) and model_keys[0] == 'volume-cropped'):
             continue
         reqs.append(_model_request(obj, rq2, frames, info, model_keys))
         pending.append(({'obj': d, 'req': rq2}, _impl_for_model(obj, rq2, st, val, model_keys), 'read'))
@@ -970,7 +986,7 @@ def run(ctx):
             _object_cases(ctx, case['obj'], reqs, pending)
     _helpers(ctx, reqs, pending)
     focus_types = None
-    for idx in range(ctx.n(45, 700)):
+    for idx in range(ctx.n(100, 900)):
         d = _draw_object(ctx, idx)
         if focus_types and d['type'] not in focus_types:
             continue
